@@ -156,9 +156,6 @@ func pathRelationMin(c *engine.Ctx, id string, pkgs []string, min int) {
 		case cs.Func == subtreeHelper:
 			// the helper itself: its shape is checked by C03.1b
 		case endsWithSeparator(cs.Info, cs.Call.Args[1]):
-		case cs.Func == "utils/path.FindPathFromModel":
-			// a different relation: loose lookup of a model path for deletes of containers ("returns the first thing
-			// that matches the prefix"); model matching is declined by C13
 		default:
 			o.Fail(&engine.Violation{Key: cs.Func + "|raw prefix test on paths", Pos: cs.Pos, Func: cs.Func,
 				Msg: "strings.HasPrefix(" + types.ExprString(cs.Call.Args[0]) + ", " + types.ExprString(cs.Call.Args[1]) + ") decides a subtree relation on raw text: /a/b also covers /a/bc"})
